@@ -269,8 +269,12 @@ static vnadata_t *make_input(int type, int rows, int cols, int nf, int zmode,
     vnadata_t *vdp = new_obj();
     int ports = rows > cols ? rows : cols;
 
-    if (vdp == NULL || vnadata_init(vdp, type, rows, cols, nf) != 0 ||
-	    set_z0_mode(vdp, zmode, ports, nf) != 0 ||
+    /* per-frequency mode without a frequency is reached by shrinking */
+    int nf0 = (zmode == 2 && nf == 0) ? 1 : nf;
+
+    if (vdp == NULL || vnadata_init(vdp, type, rows, cols, nf0) != 0 ||
+	    set_z0_mode(vdp, zmode, ports, nf0) != 0 ||
+	    (nf0 != nf && vnadata_resize(vdp, type, rows, cols, nf) != 0) ||
 	    vnadata_set_filetype(vdp, VNADATA_FILETYPE_NPD) != 0 ||
 	    vnadata_set_format(vdp, "Sdb,Zinma") != 0 ||
 	    vnadata_set_fprecision(vdp, 9) != 0 ||
@@ -523,8 +527,10 @@ static void zin_differential(int from, int n, int nf, int zmode, int omode,
 	    goto next;
 	}
 	/* the fresh object */
-	if (vnadata_init(b, VPT_ZIN, 1, n, nf) != 0 ||
-		set_z0_mode(b, zmode, n, nf) != 0 ||
+	int nf0 = (zmode == 2 && nf == 0) ? 1 : nf;
+	if (vnadata_init(b, VPT_ZIN, 1, n, nf0) != 0 ||
+		set_z0_mode(b, zmode, n, nf0) != 0 ||
+		(nf0 != nf && vnadata_resize(b, VPT_ZIN, 1, n, nf) != 0) ||
 		vnadata_set_filetype(b, VNADATA_FILETYPE_NPD) != 0 ||
 		vnadata_set_format(b, "Sdb,Zinma") != 0 ||
 		vnadata_set_fprecision(b, 9) != 0 ||
